@@ -282,3 +282,125 @@ Proof.
     repeat (first [rstep | progress (unfold inwin, min1; cbn [andb orb map fold_left app filter sl_start sl_end sl_speed]; numR)]);
     reflexivity.
 Qed.
+
+(* ------------------------------------------------------------------ PathTpc::clear keeps the index counts consistent *)
+Section ClearCounts.
+Context {F : Type} {NO : NumOps F}.
+
+Lemma nth_error_skipn_add {A} (l : list A) : forall a k, nth_error (skipn a l) k = nth_error l (a + k).
+Proof. induction l as [|x t IH]; intros [|a] k; cbn; auto. destruct k; reflexivity. Qed.
+
+Lemma counts_loop_shift (lps : list (LinkPoint (F:=F))) : forall gr cu ncat a b c sg sc scat,
+  (a <= length gr)%nat -> (b <= length cu)%nat -> (c <= ncat)%nat ->
+  counts_loop gr cu ncat lps (a + sg) (b + sc) (c + scat)
+  = counts_loop (skipn a gr) (skipn b cu) (ncat - c) lps sg sc scat.
+Proof.
+  induction lps as [|lp rest IH]; intros gr cu ncat a b c sg sc scat Ha Hb Hc; cbn [counts_loop]; [reflexivity|].
+  rewrite !nth_error_skipn_add, !skipn_length.
+  replace (a + sg + lp_grade_count lp)%nat with (a + (sg + lp_grade_count lp))%nat by lia.
+  replace (b + sc + lp_curve_count lp)%nat with (b + (sc + lp_curve_count lp))%nat by lia.
+  replace (c + scat + lp_cat_count lp)%nat with (c + (scat + lp_cat_count lp))%nat by lia.
+  rewrite (IH gr cu ncat a b c) by assumption.
+  f_equal. f_equal; [f_equal; [f_equal|]|].
+  - destruct (Nat.ltb_spec (a + (sg + lp_grade_count lp)) (length gr)), (Nat.ltb_spec (sg + lp_grade_count lp) (length gr - a)); auto; lia.
+  - destruct (Nat.ltb_spec (b + (sc + lp_curve_count lp)) (length cu)), (Nat.ltb_spec (sc + lp_curve_count lp) (length cu - b)); auto; lia.
+  - destruct (Nat.leb_spec (c + (scat + lp_cat_count lp)) ncat), (Nat.leb_spec (scat + lp_cat_count lp) (ncat - c)); auto; lia.
+Qed.
+
+(* the running sums after the first k link points *)
+Fixpoint sum_counts (lps : list (LinkPoint (F:=F))) (k : nat) : nat * nat * nat :=
+  match k, lps with
+  | S j, lp :: rest => let '(g, c, t) := sum_counts rest j in
+                       (lp_grade_count lp + g, lp_curve_count lp + c, lp_cat_count lp + t)%nat
+  | _, _ => (0, 0, 0)%nat
+  end.
+
+Lemma counts_loop_suffix (lps : list (LinkPoint (F:=F))) : forall gr cu ncat k sg sc scat,
+  (k <= length lps)%nat -> counts_loop gr cu ncat lps sg sc scat = true ->
+  let '(g, c, t) := sum_counts lps k in
+  counts_loop gr cu ncat (skipn k lps) (sg + g) (sc + c) (scat + t) = true /\
+  ((1 <= k)%nat -> (sg + g < length gr)%nat /\ (sc + c < length cu)%nat /\ (scat + t <= ncat)%nat).
+Proof.
+  induction lps as [|lp rest IH]; intros gr cu ncat k sg sc scat Hk H.
+  - destruct k; cbn in *; [rewrite !Nat.add_0_r; split; [exact H|lia]|lia].
+  - destruct k as [|j].
+    + cbn [sum_counts skipn]. rewrite !Nat.add_0_r. split; [exact H|lia].
+    + cbn [counts_loop] in H. rewrite !andb_true_iff in H. destruct H as [[[[[_ _] H1] H2] H3] H4].
+      apply Nat.ltb_lt in H1, H2. apply Nat.leb_le in H3.
+      cbn [length] in Hk. specialize (IH gr cu ncat j _ _ _ (le_S_n _ _ Hk) H4).
+      cbn [sum_counts skipn]. destruct (sum_counts rest j) as [[g c] t] eqn:Es.
+      replace (sg + (lp_grade_count lp + g))%nat with (sg + lp_grade_count lp + g)%nat by lia.
+      replace (sc + (lp_curve_count lp + c))%nat with (sc + lp_curve_count lp + c)%nat by lia.
+      replace (scat + (lp_cat_count lp + t))%nat with (scat + lp_cat_count lp + t)%nat by lia.
+      destruct IH as [I1 I2]. split; [exact I1|]. intros _.
+      destruct j as [|j']; [|apply I2; lia].
+      assert (E0 : (g, c, t) = (0, 0, 0)%nat) by (rewrite <- Es; destruct rest; reflexivity).
+      inversion E0; subst. lia.
+Qed.
+
+End ClearCounts.
+
+Section ClearCounts2.
+Context {F : Type} {NO : NumOps F}.
+
+Definition lp_sums (d : LinkPoint (F:=F)) : nat * nat * nat := (lp_grade_count d, lp_curve_count d, lp_cat_count d).
+
+Lemma sum_counts_snoc (lps : list (LinkPoint (F:=F))) : forall k cur, nth_error lps k = Some cur ->
+  sum_counts lps (S k) =
+  (let '(g, c, t) := sum_counts lps k in (g + lp_grade_count cur, c + lp_curve_count cur, t + lp_cat_count cur)%nat).
+Proof.
+  induction lps as [|lp rest IH]; intros k cur H; [destruct k; discriminate|].
+  destruct k as [|j].
+  - cbn in H. inversion H; subst. cbn. destruct rest; cbn; (apply injective_projections; cbn; [apply injective_projections; cbn|]; lia).
+  - cbn [nth_error] in H. specialize (IH j cur H). cbn [sum_counts] in *. rewrite IH.
+    destruct (sum_counts rest j) as [[g c] t]. apply injective_projections; cbn; [apply injective_projections; cbn|]; lia.
+Qed.
+
+(* the scan returns the index of the new first link point and, in [del], the sums of the counts of the link
+   points before it *)
+Lemma clear_scan_spec (lps : list (LinkPoint (F:=F))) x : forall fuel del idx del' idx',
+  lp_sums del = sum_counts lps idx ->
+  clear_scan fuel lps x del idx = Ok (del', idx') ->
+  lp_sums del' = sum_counts lps idx' /\ (idx <= idx')%nat /\ (S idx' <= length lps)%nat.
+Proof.
+  induction fuel as [|f IH]; intros del idx del' idx' Hd H; cbn [clear_scan] in H; [discriminate|].
+  destruct (nth_error lps (S idx)) as [nx|] eqn:En; [|discriminate].
+  destruct (nltb (lp_offset nx) x).
+  - destruct (nth_error lps idx) as [cur|] eqn:Ec; [|discriminate].
+    apply IH in H.
+    + destruct H as (A & B & C). split; [exact A|]. split; [lia|exact C].
+    + rewrite (sum_counts_snoc _ _ _ Ec). unfold lp_sums in *. cbn [add_counts lp_grade_count lp_curve_count lp_cat_count].
+      rewrite <- Hd. reflexivity.
+  - inversion H; subst del' idx'. split; [exact Hd|]. split; [lia|].
+    assert (S idx < length lps)%nat by (apply nth_error_Some; rewrite En; discriminate). lia.
+Qed.
+
+(* PathTpc::clear keeps the ObjState cross-checks: the remaining link points index the remaining grades, curves
+   and catenary sections exactly as before *)
+Theorem clear_counts_ok (p p' : Path (F:=F)) x del :
+  counts_ok p = true -> clear p x = Ok (p', del) -> counts_ok p' = true.
+Proof.
+  unfold clear, counts_ok. intros Hc H.
+  destruct (p_link_points p) as [|first rest] eqn:El; [discriminate|].
+  destruct (ensure _ 1501) as [u| |]; try discriminate. cbn [bind] in H.
+  destruct (ensure _ 1502) as [u2| |]; try discriminate. cbn [bind] in H.
+  destruct (clear_scan _ _ x lp_default 0) as [[d idx]| |] eqn:Es; try discriminate. cbn [bind] in H.
+  destruct idx as [|i].
+  - inversion H; subst. rewrite El. exact Hc.
+  - destruct (nth_error (first :: rest) (S i)) as [nf|] eqn:En; [|discriminate].
+    destruct (speed_scan _ _ 0) as [k| |]; try discriminate. cbn [bind] in H.
+    destruct (skipn k (p_speed_points p)) as [|q t]; [discriminate|].
+    inversion H; subst p' del; clear H. cbn [p_grades p_curves p_cats p_link_points].
+    assert (Hs : lp_sums (lp_default (F:=F)) = sum_counts (first :: rest) 0) by reflexivity.
+    destruct (clear_scan_spec _ _ _ _ _ _ _ Hs Es) as (A & _ & C).
+    pose proof (counts_loop_suffix (first :: rest) (p_grades p) (p_curves p) (length (p_cats p)) (S i) 0 0 0) as L.
+    cbv zeta in L. unfold lp_sums in A. rewrite <- A in L.
+    destruct L as [L1 L2]; [lia|exact Hc|]. destruct L2 as (B1 & B2 & B3); [lia|].
+    cbn [Nat.add] in L1, B1, B2, B3.
+    rewrite skipn_length.
+    rewrite <- (counts_loop_shift (skipn (S i) (first :: rest)) (p_grades p) (p_curves p) (length (p_cats p))
+                 (lp_grade_count d) (lp_curve_count d) (lp_cat_count d) 0 0 0); try lia.
+    rewrite !Nat.add_0_r. exact L1.
+Qed.
+
+End ClearCounts2.
